@@ -56,5 +56,35 @@ def report(ck, quick, field, what):
     return res
 
 
+def _pl(p):
+    return "[" + "; ".join(f"({n}%nat, {i}%nat)" for n, i in p) + "]"
+
+
+def rec_case_lit(r):
+    from harness.common import bl, listl, ql, zl
+    init = listl(f"({_pl(p)}, {zl(i)})" for p, i in r["init"])
+    trans = listl(f"(({zl(s)}, {zl(a)}, {_pl(p)}), {zl(n)})" for s, a, p, n in r["trans"])
+    obs = listl(f"(({zl(s)}, {_pl(p)}), {zl(o)})" for s, p, o in r["obs"])
+    rew = listl(f"(({zl(s)}, {zl(a)}, {zl(n)}, {_pl(p)}), {ql(x)})" for s, a, n, p, x in r["rew"])
+    term = listl(f"(({zl(s)}, {_pl(p)}), {bl(b)})" for s, p, b in r["term"])
+    trunc = listl(f"({zl(s)}, {bl(b)})" for s, b in r["trunc"])
+    steps = listl(f"({zl(a)}, {_pl(p)})" for a, p in r["steps"])
+    outs = listl(f"(Build_rout {zl(s)} {zl(o)} {ql(x)} {bl(te)} {bl(tr)})" for s, o, x, te, tr in r["outs"])
+    return (f"Build_case (Build_rec {init} {trans} {obs} {rew} {term} {trunc}) {_pl(r['reset_key'])} {zl(r['reset_state'])} {zl(r['reset_obs'])} {steps} {outs}")
+
+
 def builtin_step_cases(ck, quick):
-    report(ck, quick, "c01", "env.step/env.reset of a built-in environment differs from the composition of its functional components (base_env.py:240-286 key schedule)")
+    """built-in environments: (a) Python transliteration of gym_step inside the exerciser; (b) the recorded component tables are
+    handed to Coq, which runs Lerax.Env.gym_step / gym_reset over them (Lerax.Rec) and compares with env.step / env.reset"""
+    res = report(ck, quick, "c01", "env.step/env.reset of a built-in environment differs from the composition of its functional components (base_env.py:240-286 key schedule)")
+    cases, cj = [], []
+    for r in res:
+        if r.get("rejected") or "c01_rec" not in r:
+            continue
+        cases.append(rec_case_lit(r["c01_rec"]))
+        cj.append({"env": r["env"], "seed": ck.seed, "recorded_components_and_step_outputs": r["c01_rec"]})
+        ck.count("builtin_recorded_envs_in_coq")
+    if cases:
+        out = ck.run_coq_cases("Rec", cases, shard=4, case_type="Rec.case", preamble="From Lerax Require Import Env.\nImport Rec.")
+        ck.classify(out, cj, sig_of=lambda i: "C01/builtin-recorded/" + cj[i]["env"], relation="gym_step over the recorded components (Lerax.Rec) vs env.step",
+                    what="env.step/env.reset of a built-in environment is not the composition of its own components with auto-reset")
